@@ -218,11 +218,11 @@ func (s ChainIDSigner) Sender(tx *Transaction) (common.Address, error) {
 // SignatureValues returns signature values. This signature
 // needs to be in the [R || S || V] format where V is 0 or 1.
 func (s ChainIDSigner) SignatureValues(tx *Transaction, sig []byte) (R, S, V *big.Int, err error) {
-	R, S, V = decodeSignature(sig)
-	if s.chainId.Sign() != 0 {
-		V = big.NewInt(int64(sig[64] + 35))
-		V.Add(V, s.chainIdMul)
-	}
+	R, S, _ = decodeSignature(sig)
+	// (also for chain id 0: Hash covers the chain id, so V must mark the transaction as protected for Sender to
+	// verify against that same digest)
+	V = big.NewInt(int64(sig[64] + 35))
+	V.Add(V, s.chainIdMul)
 	return R, S, V, nil
 }
 
